@@ -337,10 +337,21 @@ pub fn shrink(prop: &dyn Property, case: &Case, fail: &Fail) -> (Case, Fail, usi
             }
         }
         // 2. handlers
+        if !cur.sc.joins.is_empty() {
+            let mut c = cur.clone();
+            c.sc.joins.clear();
+            attempt!(c);
+        }
         let mut i = 0;
         while i < cur.sc.handlers.len() {
             let mut c = cur.clone();
             c.sc.handlers.remove(i);
+            c.sc.joins.retain(|&j| j != i);
+            for j in &mut c.sc.joins {
+                if *j > i {
+                    *j -= 1;
+                }
+            }
             if !attempt!(c) {
                 i += 1;
             }
@@ -662,8 +673,9 @@ pub fn run_check(prop: &dyn Property, tier: Tier) -> i32 {
         };
         if reproduced {
             println!(
-                "VIOLATION property={id} replay={} clause={clause} occurrences={} shrink_steps={steps} detail={}",
+                "VIOLATION property={id} replay={} clause={clause} unlisted_classifier={:?} occurrences={} shrink_steps={steps} detail={}",
                 path.display(),
+                kn,
                 items.len(),
                 truncate(&sfail.detail, 400)
             );
